@@ -48,7 +48,7 @@ type CbCase struct {
 	Beh     string `json:"beh"`
 	Proto   string `json:"proto"`
 	User    string `json:"user"`   // class: absent | empty | zero | lo | eq | eqp1 | hi
-	RemCls  string `json:"remcls"` // below | above  (relayer gas relative to the committed limit)
+	RemCls  string `json:"remcls"` // below | above (relayer gas relative to the committed limit) | ample (above the requested limit)
 	AckKind string `json:"ackKind"`
 }
 
@@ -429,8 +429,11 @@ func (w *CbWorld) gasFor(c CbCase) int64 {
 		return 10_000_000
 	}
 	commit := commitOf(userValue(c.User))
-	if c.RemCls == "below" {
+	switch c.RemCls {
+	case "below":
 		return pre + commit/2
+	case "ample": // above the REQUESTED limit (which may exceed the chain maximum): max < user <= remaining
+		return pre + max(commit, userValue(c.User)) + 300_000
 	}
 	return pre + commit + 300_000
 }
